@@ -12,6 +12,8 @@ import (
 	"path/filepath"
 	"sort"
 	"strings"
+	"sync"
+	"time"
 )
 
 type vxFSOp struct {
@@ -35,6 +37,10 @@ type vxFS struct {
 
 	readOnlyViolations []string
 	mutations          int
+
+	wmu     sync.Mutex
+	pending []*vxTicket
+	writing bool
 }
 
 var vxTheFS *vxFS
@@ -124,7 +130,51 @@ func (h *vxHandle) ReadAt(p []byte, off int64) (int, error) {
 	return h.f.ReadAt(p, off)
 }
 
+// orderWrite makes the numbering of concurrent WriteAt calls deterministic:
+// moss issues the kvs and buf writes of a segment from two goroutines; the
+// executor runs them in goroutine-creation order (ascending offset), so the
+// native twin lets concurrent writes settle for a moment and then admits
+// them in ascending offset order.
+func (fs *vxFS) orderWrite(off int64) func() {
+	fs.wmu.Lock()
+	t := &vxTicket{off: off}
+	fs.pending = append(fs.pending, t)
+	fs.wmu.Unlock()
+	time.Sleep(4 * time.Millisecond)
+	for {
+		fs.wmu.Lock()
+		min := fs.pending[0]
+		for _, q := range fs.pending {
+			if q.off < min.off {
+				min = q
+			}
+		}
+		if min == t && !fs.writing {
+			fs.writing = true
+			fs.wmu.Unlock()
+			break
+		}
+		fs.wmu.Unlock()
+		time.Sleep(200 * time.Microsecond)
+	}
+	return func() {
+		fs.wmu.Lock()
+		for i, q := range fs.pending {
+			if q == t {
+				fs.pending = append(fs.pending[:i], fs.pending[i+1:]...)
+				break
+			}
+		}
+		fs.writing = false
+		fs.wmu.Unlock()
+	}
+}
+
+type vxTicket struct{ off int64 }
+
 func (h *vxHandle) WriteAt(p []byte, off int64) (int, error) {
+	release := h.fs.orderWrite(off)
+	defer release()
 	h.fs.mutations++
 	if h.fs.fail() {
 		if h.fs.shortLen > 0 && h.fs.shortLen < len(p) {
